@@ -35,6 +35,7 @@ pub fn world(prec: u128, inc: u128, ask_fee: Option<&str>, bid_fee: Option<&str>
         height: 1000,
         time_ns: 1_600_000_000_000_000_000,
         probe_seed: 1,
+        marker_required_attrs: BTreeMap::new(),
     }
 }
 
